@@ -171,6 +171,7 @@ func C12(cfg Cfg) int {
 		}
 	}
 	c12Retry(run, cfg)
+	c12Concurrent(run, cfg)
 	c12Wire(run, cfg)
 	// Commit arrival orders: observed through the routing sender's sequence numbers in a dedicated small cluster.
 	c12Orders(run, cfg, orders)
@@ -425,5 +426,69 @@ func c12Wire(run *evid.Run, cfg Cfg) {
 	}
 	if run.Get("wire_generations_succeeded") == 0 {
 		run.Inconclusive("no generation succeeded over the wire")
+	}
+}
+
+// c12Concurrent: several generations for different accounts of the SAME wallet run at the same time from different
+// initiators.  Every one that reports success must have left a complete, consistent, usable account on every
+// participant - none may be lost to another generation's write of the wallet.
+func c12Concurrent(run *evid.Run, cfg Cfg) {
+	ids := idSet("small", 3)
+	c, err := rig.NewCluster(rig.ClusterOpts{Dir: cfg.Dir("c12-concurrent"), IDs: ids})
+	if err != nil {
+		run.Inconclusive(err.Error())
+		return
+	}
+	defer c.Close()
+	type outcome struct {
+		account string
+		pub     []byte
+		err     error
+	}
+	rounds := cfg.N(5, 40)
+	for round := 0; round < rounds && run.NumViolations() < 5; round++ {
+		var wg sync.WaitGroup
+		outs := make([]outcome, 3)
+		for k := 0; k < 3; k++ {
+			wg.Add(1)
+			go func(k int) {
+				defer wg.Done()
+				account := fmt.Sprintf("D/conc-%d-%d", round, k)
+				pub, _, err := c.Inst[ids[k]].Stack.Process.OnGenerate(context.Background(), rig.Client1(), account, []byte("pass"), 2, 3)
+				outs[k] = outcome{account, pub, err}
+			}(k)
+		}
+		wg.Wait()
+		for _, o := range outs {
+			run.Eval(1)
+			run.Count("concurrent_generations", 1)
+			if o.err != nil {
+				// Two coordinators may legitimately get in each other's way; a refusal is not this property's concern.
+				run.Count("concurrent_generations_refused", 1)
+				continue
+			}
+			views := dkgHolders(c, o.account)
+			for _, p := range oracle.CheckDKGViews(views, o.pub, 2, ids) {
+				run.Violate(fmt.Sprintf("generation of %s ran concurrently with two others for the same wallet and reported success, but: %s", o.account, p), map[string]any{"account": o.account, "round": round})
+			}
+			problems, _ := dkgThresholdSign(c, o.account, o.pub, 2, byte(round))
+			for _, p := range problems {
+				run.Violate(fmt.Sprintf("generation of %s ran concurrently with two others and reported success, but: %s", o.account, p), map[string]any{"account": o.account})
+			}
+			run.Count("concurrent_generations_succeeded", 1)
+		}
+		// Accounts of earlier rounds must still be there (a later write of the wallet must not drop them).
+		if round > 0 {
+			for k := 0; k < 3; k++ {
+				prev := fmt.Sprintf("D/conc-%d-%d", round-1, k)
+				if h := dkgHolders(c, prev); len(h) != 0 && len(h) != len(ids) {
+					run.Violate(fmt.Sprintf("account %s, generated in the previous round, is now held by %d of %d participants", prev, len(h), len(ids)), nil)
+				}
+			}
+		}
+	}
+	run.Distinct(fmt.Sprintf("concurrent generations into one wallet: succeeded>0=%v", run.Get("concurrent_generations_succeeded") > 0))
+	if run.Get("concurrent_generations_succeeded") == 0 {
+		run.Inconclusive("no concurrent generation succeeded")
 	}
 }
